@@ -57,7 +57,7 @@ impl Mutation {
             MutKind::Mount(..) | MutKind::Umount(..) => false,
             MutKind::Mkdir(a) => lstat(a).is_none() && std::path::Path::new(a).parent().map(|p| p.is_dir()).unwrap_or(false),
             MutKind::Xchg(a, b) => lstat(a).is_some() && lstat(b).is_some(),
-            MutKind::Move(a, b) => lstat(a).is_some() && lstat(b).is_none(),
+            MutKind::Move(a, b) => lstat(a).is_some() && lstat(b).is_none() && std::path::Path::new(b).parent().map(|p| p.is_dir()).unwrap_or(false),
             MutKind::Remove(a) => match lstat(a) { Some(st) => !st.is_dir() || std::fs::read_dir(a).map(|mut d| d.next().is_none()).unwrap_or(false), None => false },
         }
     }
@@ -127,6 +127,7 @@ pub struct ExecOut {
     pub horizon_hit: bool,
     pub timeout: bool,
     pub switches: u32,
+    pub pids: Vec<i32>,
 }
 
 impl ExecOut {
@@ -191,6 +192,7 @@ pub fn execute(cfg: &ExecCfg, ch: &mut Chooser) -> MResult<ExecOut> {
     unsafe { libc::alarm(cfg.timeout_s) };
     let mut ts: Vec<Tracee> = Vec::new();
     for s in &cfg.specs { ts.push(Tracee::spawn(s)?); }
+    out.pids = ts.iter().map(|t| t.pid).collect();
     // state per worker: None = not yet at a decision point; Some(ev) = parked at the entry stop of a tree-relevant syscall
     let mut parked: Vec<Option<Ev>> = vec![None; n];
     let mut done: Vec<bool> = ts.iter().map(|t| t.finished).collect();
